@@ -68,7 +68,17 @@ func NewTypeInfo(doc *ast.Document, s *schema.Schema, features schema.FeatureSet
 				}
 			}
 		case *ast.ObjectValue:
-			if expected, ok := schema.NullableType(ret.ExpectedTypes[node]).(*schema.InputObjectType); ok {
+			expectedType := schema.NullableType(ret.ExpectedTypes[node])
+			for {
+				// An object literal in a list position is a single item coerced to a list
+				// (recursively for nested lists): its fields are typed by the item type.
+				list, ok := expectedType.(*schema.ListType)
+				if !ok {
+					break
+				}
+				expectedType = schema.NullableType(list.Type)
+			}
+			if expected, ok := expectedType.(*schema.InputObjectType); ok {
 				for _, field := range node.Fields {
 					if expected, ok := expected.Fields[field.Name.Name]; ok {
 						ret.ExpectedTypes[field.Value] = expected.Type
